@@ -85,3 +85,12 @@ from .C06 import Run as _Run, Spawn as _Spawn      # noqa: E402
 
 CONTRACTS = [variant(AsyncScope, "C07", P), variant(TaskGroupExit, "C07", P), CheckCancellation(), Cancel(),
              variant(_Run, "C07", ("C06-P1",)), variant(_Spawn, "C07", ("C06-P1",))]
+
+
+def extra_contracts():
+    """Borrowed late (contracts/C08.py imports C02, which this module imports too): the scope treats `Disposables.__aexit__` as a
+    callee that answers a cancellation delivered while the cleanups run with CancelledError itself - not with a group that
+    wraps it, which the scope's `except CancelledError` would not recognise (the spawned tasks would then be awaited instead
+    of cancelled and the task would not end cancelled)."""
+    from .C08 import Exit
+    return [variant(Exit, "C07", ("P4:a-cancelled-exit-raises-CancelledError",))]
